@@ -418,7 +418,7 @@ func (h *Session) notify(frame Frame) {
 	if frame.onlineTransition() {
 		if frame.Host.Addr.IP.Is4() {
 			for _, v := range frame.Host.MACEntry.HostList {
-				if !v.Online && v.dirty {
+				if v != frame.Host && !v.Online && v.dirty { // the frame host gets its own notification below
 					offline = append(offline, v)
 				}
 			}
